@@ -229,6 +229,10 @@ def main():
             for L in (1, 2):
                 for lrus in _it.product(RAW_LRUS, repeat=L):
                     raw_history(col, cname, sa, list(lrus), CORE[:6])
+    # one very deep entry (a URL with 1500 path segments): storing, matching and iterating must not depend on the recursion limit
+    deep = ["s:http", "h:fr", "h:lemonde"] + ["p:%d" % j for j in range(1500)]
+    for cname in CLASSES:
+        raw_history(col, cname, False, [deep[:4], deep], CORE[:3])
     # random longer histories over the whole universe
     rnd = random.Random(a.seed)
     for i in range(60 if a.tier == "quick" else 1500):
